@@ -89,23 +89,28 @@ Mutate(id, v) ==                       \* an in-place write into a list or array
     /\ Bump /\ UNCHANGED <<cl, st, nxt, lastDeep>>
 
 (* ---- the four phases, composed exactly as the code composes them ---- *)
-(* repopulate / predict: shallow_copy; clusters := deep copies; point_labels := new labels *)
+(* repopulate / predict: shallow_copy; clusters := deep copies; point_labels := new labels.
+   Effect on <<heap, cl, st, nxt>>; the new state is the LAST handle of the result. *)
+RelabelLikeEff(hp, c, s, n0, h, L) ==
+    LET s1 == ShallowEff(s, h)
+        n  == Len(s1)
+        r  == DeepClusters(hp, c, n0, s[h].cls, 1, <<>>)
+        s2 == [s1 EXCEPT ![n].cls = r[4]]
+    IN  SetLabelsEff(r[1], r[2], s2, r[3], n, L)
 PhaseRelabelLike(h, L) ==
     /\ CanOp /\ h \in Handles
-    /\ LET s1 == ShallowEff(st, h)
-           n  == Len(s1)
-           r  == DeepClusters(heap, cl, nxt, st[h].cls, 1, <<>>)
-           s2 == [s1 EXCEPT ![n].cls = r[4]]
-           q  == SetLabelsEff(r[1], r[2], s2, r[3], n, L)
+    /\ LET q == RelabelLikeEff(heap, cl, st, nxt, h, L)
        IN  heap' = q[1] /\ cl' = q[2] /\ st' = q[3] /\ nxt' = q[4]
     /\ Bump /\ lastDeep' = <<>>
 (* statistics / optimise: shallow_copy; each cluster := its shallow copy with one array recomputed *)
+FitLikeEff(hp, c, s, n0, h, slot) ==
+    LET r  == FreshClusters(hp, c, n0, s[h].cls, slot, 1, <<>>)
+        s1 == ShallowEff(s, h)
+    IN  <<r[1], r[2], [s1 EXCEPT ![Len(s1)].cls = r[4]], r[3]>>
 PhaseFitLike(h, slot) ==
     /\ CanOp /\ h \in Handles
-    /\ LET r  == FreshClusters(heap, cl, nxt, st[h].cls, slot, 1, <<>>)
-           s1 == ShallowEff(st, h)
-       IN  /\ heap' = r[1] /\ cl' = r[2] /\ nxt' = r[3]
-           /\ st' = [s1 EXCEPT ![Len(s1)].cls = r[4]]
+    /\ LET q == FitLikeEff(heap, cl, st, nxt, h, slot)
+       IN  heap' = q[1] /\ cl' = q[2] /\ st' = q[3] /\ nxt' = q[4]
     /\ Bump /\ lastDeep' = <<>>
 
 InitWith(L) ==
